@@ -39,6 +39,35 @@ func isBuiltin(in ssa.Instruction, name string) bool {
 func chanField(v ssa.Value) *types.Var {
 	f, _ := core.LoadedField(v)
 	if f == nil {
+		// a channel parameter that every caller binds to a load of one and the same struct field
+		if pa, ok := core.Canon(v).(*ssa.Parameter); ok {
+			fn := pa.Parent()
+			idx := -1
+			for i, q := range fn.Params {
+				if q == pa {
+					idx = i
+				}
+			}
+			refs := gCallSites[fn]
+			if idx < 0 || len(refs) == 0 {
+				return nil
+			}
+			var bound *types.Var
+			for _, ref := range refs {
+				c := core.Common(ref)
+				if c == nil || c.StaticCallee() != fn || idx >= len(c.Args) {
+					return nil
+				}
+				g, _ := core.LoadedField(c.Args[idx])
+				if g == nil || (bound != nil && bound != g) {
+					return nil
+				}
+				bound = g
+			}
+			f = bound
+		}
+	}
+	if f == nil {
 		return nil
 	}
 	if _, ok := f.Type().Underlying().(*types.Chan); !ok {
@@ -47,7 +76,29 @@ func chanField(v ssa.Value) *types.Var {
 	return f
 }
 
+// gCallSites: static call / go / defer sites per repo function (ssa.Function has no referrers).
+var gCallSites map[*ssa.Function][]ssa.Instruction
+var gCallSitesFor *core.Program
+
+func ensureCallSites(p *core.Program) {
+	if gCallSitesFor == p {
+		return
+	}
+	gCallSitesFor = p
+	gCallSites = map[*ssa.Function][]ssa.Instruction{}
+	for _, fn := range p.RepoFuncs() {
+		core.EachInstr(fn, func(in ssa.Instruction) {
+			if c := core.Common(in); c != nil {
+				if t := c.StaticCallee(); t != nil {
+					gCallSites[t] = append(gCallSites[t], in)
+				}
+			}
+		})
+	}
+}
+
 func findWS(p *core.Program, r *core.Report, rule string) *wsAnchors {
+	ensureCallSites(p)
 	a := &wsAnchors{p: p, getters: map[*ssa.Function]bool{}, setters: map[*ssa.Function]bool{}, closers: map[*ssa.Function]bool{}}
 	a.fns = p.FuncsOf("ws")
 	iface := p.Named("api", "WebsocketDataWriterInterface")
